@@ -14,7 +14,7 @@ export GOTOOLCHAIN=auto
 unset LEDGER_FILE HLEDGER_JOURNAL
 
 S=$(mktemp -d /tmp/hlv.XXXXXX) || { echo "INCONCLUSIVE property=$cmd cannot create scratch dir"; exit 2; }
-cleanup() { rm -rf "$S"; }
+cleanup() { [ -n "${VERIF_KEEP:-}" ] && { echo "scratch kept: $S" >&2; return; }; rm -rf "$S"; }
 trap cleanup EXIT
 trap 'cleanup; exit 2' INT TERM
 
